@@ -144,6 +144,10 @@ def operation_discipline(P, rep, rule="R1"):
                                 break
                             if st.get("k") in ("ForStmt", "CXXForRangeStmt") and "compositions" in norm.render(P, st["c"][1]):
                                 prev_loop = True
+                            # the same search with the standard algorithm: std::find over the compositions list, then a test of the result
+                            if any(y.get("k") == "CallExpr" and P.d(y.get("callee")).get("qn") in ("std::find", "std::find_if") and "compositions" in norm.render(P, y)
+                                   for y in F.walk(st)):
+                                prev_loop = True
                         if prev_loop:
                             clears.append(r)
             if len(clears) != 1:
